@@ -292,6 +292,12 @@ let () =
       let sp = (match doc_resize_shape s dst with Some dd when inbb i dd -> ix_out dd (idx_str (doc_resize_index s dst i)) | _ -> "unspecified") in
       r3 m sp (posl s && sp <> "unspecified")
     | _ -> failwith "resize_ix");
+  register "resize_ixall" (function [_; s; dst] -> let s = getL s and dst = getL dst in
+      let all f = String.concat "," (List.map (fun i -> idx_str (f i)) (lex_enum dst)) in
+      let m = (match shape_resize s dst with Val dd -> ix_out dd (all (fun i -> resize_index i s dst)) | Nothing -> "nothing" | Trap -> "trap") in
+      let sp = (match doc_resize_shape s dst with Some dd -> ix_out dd (all (fun i -> doc_resize_index s dst i)) | None -> "unspecified") in
+      r3 m sp (posl s && sp <> "unspecified")
+    | _ -> failwith "resize_ixall");
   register "expand" (function [_; a; ax; q] -> let (s, d) = getA a in expand_case s d [getI ax] [getI q] | _ -> failwith "expand");
   register "expand_e" (function [a; ax; q] -> let (s, d) = getA a in expand_case s d [getI ax] [getI q] | _ -> failwith "expand_e");
   register "expand_m" (function [_; a; ax; q] -> let (s, d) = getA a in expand_case s d (getL ax) (getL q) | _ -> failwith "expand_m");
